@@ -18,6 +18,9 @@ EXPLANATION = (
     "x-axis rotation; sweep is the extent in radians. R05.4 degenerate siblings: the state written by the early exit "
     "(coincident endpoints / zero radius) is read off the code; the evaluators' branches for that state (npoint, numpy "
     "npoint, length, bbox) must implement the straight segment: linear interpolation, |end - start|, min/max box. "
+    "R05.5: the start parameter is obtained through point_at_angle / t_at_point, which convert a polar angle into the ellipse parameter by "
+    "atan2(rx tan a, ry) plus half a turn in the left half plane; the guarding test is folded for one representative angle per sixteenth "
+    "of a turn over (-1, 1) turn (the angle is a difference of two atan2 results). "
     "The cosine clamp before acos is checked as a pure two-sided range clamp: values above 1 go to 1 AND values below -1 go to -1 "
     "(a one-sided abs() clamp sends -1.0000000000000002, which too-small radii produce, to +1: the half turn becomes no arc). Not "
     "decided: that sampled points satisfy the ellipse equation numerically; behaviour at exactly half a turn."
@@ -29,7 +32,7 @@ ASSUMPTIONS = [
     "SVG 1.1 Appendix F.6.5/F.6.6 transcribed in this module is the oracle.",
     "cos/sin/sqrt/acos/degrees/abs are opaque: agreement is on the formulas, not on floating-point values.",
 ]
-FLOORS = {"R05.1": 60, "R05.2": 2, "R05.3": 4, "R05.4": 4}
+FLOORS = {"R05.1": 60, "R05.2": 2, "R05.3": 4, "R05.4": 4, "R05.5": 2}
 
 PARAMS = ["start", "rx", "ry", "rotation", "large_arc_flag", "sweep_flag", "end"]
 
@@ -95,6 +98,7 @@ def run(ctx):
     ctx.rule("R05.2", "radius sign normalisation (F.6.6.1)")
     ctx.rule("R05.3", "stored form of the solved arc")
     ctx.rule("R05.4", "degenerate arc = straight segment, in every evaluator")
+    ctx.rule("R05.5", "polar angle to ellipse parameter: half-turn correction exactly in the left half plane")
     fn = ctx.fn("Arc._svg_parameterize", "R05.1")
     have = [a.arg for a in fn.args.args][1:]
     ctx.need(have == PARAMS, "R05.1", "_svg_parameterize parameters changed: %s" % have)
@@ -102,6 +106,7 @@ def run(ctx):
     radius_sign(ctx, fn)
     stored_form(ctx, fn)
     degenerate(ctx, fn)
+    polar_to_parameter(ctx)
 
 
 def _num(node):
@@ -340,3 +345,46 @@ def degenerate(ctx, fn):
             extra = ast.unparse(b.test)
         ctx.ob("R05.4", "%s[degenerate]" % qual, ok, ast.unparse(b)[:140] if b is not None else "no sweep == 0 branch", f.lineno,
                "points of a zero-radius arc are the linear interpolation between its endpoints")
+
+
+def polar_to_parameter(ctx):
+    """Arc.point_at_angle / Arc.t_at_point turn a polar angle (measured from the rotated x axis) into the ellipse parameter:
+    t = atan2(rx tan(angle), ry) lies in the right half turn; a half turn is added exactly when the angle points into the left half
+    plane (cos(angle) < 0).  The angle is a difference of two atan2 results, so it ranges over (-1, 1) turn.  The test guarding the
+    half-turn correction is folded for one representative angle per sixteenth of a turn in that range (angles in units of a turn,
+    tau := 1): it is piecewise constant between multiples of a quarter turn, so the representatives decide it."""
+    from fractions import Fraction
+    from ..pe import PE, K, Raised
+
+    for qual in ("Arc.point_at_angle", "Arc.t_at_point"):
+        fn = ctx.fn(qual, "R05.5")
+        body = [x for x in fn.body if not (isinstance(x, ast.Expr) and isinstance(x.value, ast.Constant))]
+        # the angle local: the argument of tan() inside atan2(...)
+        tans = [c for c in ast.walk(fn) if isinstance(c, ast.Call) and call_name(c) == "tan" and len(c.args) == 1 and isinstance(c.args[0], ast.Name)]
+        at = [x for x in body if isinstance(x, ast.Assign) and isinstance(x.targets[0], ast.Name) and isinstance(x.value, ast.Call) and call_name(x.value) == "atan2"]
+        ctx.need(len(at) == 1 and tans, "R05.5", "%s: t = atan2(rx tan(angle), ry) not found" % qual)
+        angle_var, tvar = tans[0].args[0].id, at[0].targets[0].id
+        start = body.index(at[0])
+        bad = []
+        n = 0
+        for k in range(-16, 16):
+            ang = Fraction(2 * k + 1, 32)
+            pe = PE(ctx.m, "R05.5", "%s[angle = %s turn]" % (qual, ang))
+            pe.bind("tau", const(1))
+            pe.bind(angle_var, const(ang))
+            base = atom("T_RIGHT_HALF")
+            pe.bind(tvar, base)
+            try:
+                res = pe.run(body[start + 1:])
+            except (Raised, AnalysisError) as e:
+                raise AnalysisError("R05.5", "%s: half-turn correction not decided: %s" % (qual, e))
+            got = pe.env.get(tvar)
+            frac = abs(ang) % 1
+            want_left = Fraction(1, 4) < frac < Fraction(3, 4)
+            added = isinstance(got, RF) and got == base + const(Fraction(1, 2))
+            kept = isinstance(got, RF) and got == base
+            n += 1
+            if not (added if want_left else kept):
+                bad.append("angle %s turn: %s" % (ang, "half turn added" if added else "not corrected" if kept else got))
+        ctx.ob("R05.5", "%s[half turn added exactly in the left half plane]" % qual, not bad, "; ".join(bad[:4]) or "%d representative angles" % n, fn.lineno,
+               "atan2(rx tan a, ry) only yields the right half of the ellipse; for |a| mod 1 turn in (1/4, 3/4) the parameter is half a turn further - also for angles beyond +-3/4 turn, which occur because the angle is a difference of two atan2 values")
